@@ -145,6 +145,10 @@ func test(state *core.BuildState, label core.BuildLabel, target *core.BuildTarge
 		if state.ForceRerun {
 			return true
 		}
+		// Always run when given arguments; a stored result of the plain run says nothing about them.
+		if len(state.TestArgs) > 0 {
+			return true
+		}
 
 		if s := target.State(); (s == core.Unchanged || s == core.Reused) && core.PathExists(target.TestResultsFile()) {
 			// Output file exists already and appears to be valid. We might still need to rerun though
